@@ -51,7 +51,8 @@ structure APort where
   deriving Repr, Inhabited
 
 /-- an instance of the cell at position (`li`, `di`), referenced in the text by the spellings
-    `viewSp`, `cellSp`, `libSp` -/
+    `viewSp`, `cellSp`, `libSp`; `libOmit`: the text has no `(libraryRef …)` (the cell is looked up in the
+    library being read; `libSp` is not written then) -/
 structure AInst where
   name : AName
   li : Nat
@@ -60,6 +61,7 @@ structure AInst where
   cellSp : Str
   libSp : Str
   props : List AProp := []
+  libOmit : Bool := false
   deriving Repr, Inhabited
 
 /-- a joined pin: bit `bit` (none: written without `member`) of port `pi` of the cell itself, or of
@@ -87,9 +89,11 @@ structure ACell where
   nets : List ANet := []
   deriving Repr, Inhabited
 
+/-- `external`: written `(external …)` instead of `(library …)` -/
 structure ALib where
   name : AName
   cells : List ACell := []
+  external : Bool := false
   deriving Repr, Inhabited
 
 structure ADesign where
@@ -127,10 +131,12 @@ def APort.sexp (p : APort) : SExp :=
   | none => .list (A "port" :: p.name.sexp :: dirSexp p.dir)
   | some k => .list (A "port" :: .list [A "array", p.name.sexp, .atom (natStr k)] :: dirSexp p.dir)
 
+def AInst.cellRefSexp (i : AInst) : SExp :=
+  if i.libOmit then .list [A "cellref", .atom i.cellSp]
+  else .list [A "cellref", .atom i.cellSp, .list [A "libraryref", .atom i.libSp]]
+
 def AInst.sexp (i : AInst) : SExp :=
-  .list (A "instance" :: i.name.sexp ::
-    .list [A "viewref", .atom i.viewSp, .list [A "cellref", .atom i.cellSp, .list [A "libraryref", .atom i.libSp]]] ::
-    i.props.map AProp.sexp)
+  .list (A "instance" :: i.name.sexp :: .list [A "viewref", .atom i.viewSp, i.cellRefSexp] :: i.props.map AProp.sexp)
 
 def APin.sexp : APin → SExp
   | .port _ none sp => .list [A "portref", .atom sp]
@@ -145,14 +151,18 @@ def ANetKind.sexp : ANetKind → SExp
 
 def ANet.sexp (n : ANet) : SExp := .list [A "net", n.kind.sexp, .list (A "joined" :: n.pins.map APin.sexp)]
 
+/-- a cell without instances and nets is written without `(contents …)` -/
+def ACell.contentsSexp (c : ACell) : List SExp :=
+  if c.insts.isEmpty && c.nets.isEmpty then []
+  else [.list (A "contents" :: (c.insts.map AInst.sexp ++ c.nets.map ANet.sexp))]
+
 def ACell.sexp (c : ACell) : SExp :=
   .list [A "cell", c.name.sexp, .list [A "celltype", A "GENERIC"],
-    .list [A "view", .atom c.view, .list [A "viewtype", A "NETLIST"],
-      .list (A "interface" :: c.ports.map APort.sexp),
-      .list (A "contents" :: (c.insts.map AInst.sexp ++ c.nets.map ANet.sexp))]]
+    .list (A "view" :: .atom c.view :: .list [A "viewtype", A "NETLIST"] ::
+      .list (A "interface" :: c.ports.map APort.sexp) :: c.contentsSexp)]
 
 def ALib.sexp (l : ALib) : SExp :=
-  .list (A "library" :: l.name.sexp :: .list [A "edifLevel", A "0"] ::
+  .list (A (if l.external then "external" else "library") :: l.name.sexp :: .list [A "edifLevel", A "0"] ::
     .list [A "technology", .list [A "numberDefinition"]] :: l.cells.map ACell.sexp)
 
 /-- the EDIF s-expression of an abstract design -/
@@ -202,6 +212,7 @@ structure V05Lib where
   name : Option Str
   ident : Option Str
   cells : List V05Cell
+  external : Bool
   deriving Repr
 
 structure V05Top where
@@ -230,7 +241,15 @@ def view05Cable (c : CCable) : V05Cable := ⟨nameOf c.data, identOf c.data, c.i
 def view05Cell (d : CDef) : V05Cell :=
   ⟨nameOf d.data, identOf d.data, d.data.getStr? (S "EDIF.view.identifier"),
     d.ports.map view05Port, d.insts.map view05Inst, d.cables.map view05Cable⟩
-def view05Lib (l : CLib) : V05Lib := ⟨nameOf l.data, identOf l.data, l.defs.map view05Cell⟩
+def kEXT : Str := S "EDIF.external"
+
+/-- the library was written `(external …)` -/
+def extOf (d : Data) : Bool :=
+  match d.get? kEXT with
+  | some (.bool true) => true
+  | _ => false
+
+def view05Lib (l : CLib) : V05Lib := ⟨nameOf l.data, identOf l.data, l.defs.map view05Cell, extOf l.data⟩
 def view05 (n : CNetlist) : V05 :=
   ⟨nameOf n.data, identOf n.data, n.libs.map view05Lib,
     n.top.map fun t => ⟨nameOf t.data, identOf t.data, t.ref⟩⟩
@@ -317,7 +336,7 @@ def cablesDen (nets : List ANet) : List V05Cable :=
 def ACell.den (c : ACell) : V05Cell :=
   ⟨some c.name.name, some c.name.ident, some c.view, c.ports.map APort.den, c.insts.map AInst.den, cablesDen c.nets⟩
 
-def ALib.den (l : ALib) : V05Lib := ⟨some l.name.name, some l.name.ident, l.cells.map ACell.den⟩
+def ALib.den (l : ALib) : V05Lib := ⟨some l.name.name, some l.name.ident, l.cells.map ACell.den, l.external⟩
 
 /-- **what the design means** -/
 def denote (d : ADesign) : V05 :=
@@ -358,7 +377,7 @@ def AInst.okB (d : ADesign) (L D : Nat) (i : AInst) : Bool :=
   (match cellAt d i.li i.di with
    | none => false
    | some (l, c) => spellsB i.cellSp c.name.ident && spellsB i.libSp l.name.ident && spellsB i.viewSp c.view) &&
-  i.props.all AProp.okB
+  i.props.all AProp.okB && (!i.libOmit || i.li == L)
 
 def APin.okB (d : ADesign) (c : ACell) : APin → Bool
   | .port pi b sp =>
